@@ -156,6 +156,7 @@ def random_callset(rng, nsamples=None, nrecords=None, p_missing=None, p_multi=No
                   version=rng.choice(["4.3", "4.3", "4.2", "4.2", "4.1", "4.4"]))
     # a fifth of the call sets write some genotypes with the VCF 4.4 leading separator (text only; the genotype is the same)
     cs_.lead_sep = rng.choice([0, 0, 0, 0, 0, 0, 0, 0, 2, 5])
+    cs_.bare_dot = rng.choice([0, 0, 0, 0, 1, 2, 3])       # fully missing samples written as a bare '.' column (VCF text only)
     if len(contigs) >= 2 and rng.random() < 0.4:
         # BCF only: the ##contig lines carry IDX= values that are not in line order
         cs_.contig_perm = rng.sample(range(len(contigs)), len(contigs))
